@@ -1,4 +1,5 @@
 pub mod decode;
+pub mod epstream;
 pub mod gen;
 pub mod ledger;
 pub mod pair;
